@@ -53,3 +53,50 @@ CATALOGUE = [
      "edits": [{"file": S, "old": "        self.sigma = sigma\n",
                 "new": "        self.sigma = sigma\n        np.random.rand()\n"}]},
 ]
+
+R = "pyrex/ray_tracing.py"
+L = "pyrex/custom/layered_ice/ray_tracing.py"
+IF = "pyrex/internal_functions.py"
+
+CATALOGUE += [
+    # ------------------------------------------------------------- C06
+    {"id": "revert-set_buffers-cache", "props": ["C06"],
+     "edits": [{"file": S, "old": "        # Since the buffers are changed in place instead of setting\n        # self._buffers, need to manually enforce the cache clearing\n        self._clear_cache()\n",
+                "new": ""}]},
+    {"id": "revert-max_reflections-uniform", "props": ["C06"],
+     "edits": [{"file": R, "old": "        self.max_reflections = self.max_reflections\n", "new": ""}]},
+    {"id": "revert-max_reflections-layered", "props": ["C06"],
+     "edits": [{"file": L, "old": "        self.max_reflections = self.max_reflections\n", "new": ""}]},
+    {"id": "c06-filter-no-cache-clear", "props": ["C06"],
+     "edits": [{"file": S, "old": "        # manually enforce the cache clearing\n        self._clear_cache()\n        for group in self._filters:",
+                "new": "        # manually enforce the cache clearing\n        for group in self._filters:"}]},
+    {"id": "c06-static-attrs-drop-factors", "props": ["C06"],
+     "edits": [{"file": S, "old": "                                            '_buffers', '_factors', '_filters'])",
+                "new": "                                            '_buffers', '_filters'])"}]},
+    {"id": "c06-static-attrs-drop-t0s", "props": ["C06"], "expect": 0,
+     "note": "equivalent mutant: _t0s is only ever assigned by shift(), which also assigns times",
+     "edits": [{"file": S, "old": "        super().__init__(static_attributes=['times', '_functions', '_t0s',",
+                "new": "        super().__init__(static_attributes=['times', '_functions',"}]},
+    {"id": "c06-clear-cache-keeps-values", "props": ["C06"],
+     "note": "cache clearing misses one lazy attribute name",
+     "edits": [{"file": IF, "old": "                           if attr.startswith(\"_lazy_\")]",
+                "new": "                           if attr.startswith(\"_lazy_\") and attr!=\"_lazy_rho\"]"}]},
+    {"id": "c06-tracer-dz-not-static", "props": ["C06"],
+     "edits": [{"file": R, "old": "        self.ice = ice_model\n        self.dz = dz\n        super().__init__()",
+                "new": "        self.ice = ice_model\n        super().__init__()\n        self.dz = dz"}]},
+    {"id": "c06-path-theta0-late", "props": ["C06"],
+     "edits": [{"file": R, "old": "        self.theta0 = launch_angle\n        self.ice = parent_tracer.ice\n        self.dz = parent_tracer.dz\n        self.direct = direct\n        super().__init__()",
+                "new": "        self.ice = parent_tracer.ice\n        self.dz = parent_tracer.dz\n        self.direct = direct\n        super().__init__()\n        self.theta0 = launch_angle"}]},
+    {"id": "c06-with_times-buffers-on-self", "props": ["C06"],
+     "note": "with_times sets the buffers on the original instead of the new signal",
+     "edits": [{"file": S, "old": "            new_signal.set_buffers(leading=new_times[0]-self.times[0],",
+                "new": "            self.set_buffers(leading=new_times[0]-self.times[0],"}]},
+    {"id": "c06-copy-shares-buffers", "props": ["C06"],
+     "note": "copy shares the mutable buffer lists; a later set_buffers on the copy changes the original",
+     "edits": [{"file": S, "old": "        new_signal._buffers = copy.deepcopy(self._buffers)",
+                "new": "        new_signal._buffers = list(self._buffers)"}]},
+    {"id": "c06-ok-eager-recompute", "props": ["C06"], "expect": 0,
+     "note": "semantics-preserving: clear cache on every shift explicitly",
+     "edits": [{"file": S, "old": "        self.times += dt\n        self._t0s = [t+dt for t in self._t0s]",
+                "new": "        self._clear_cache()\n        self.times = self.times + dt\n        self._t0s = [t+dt for t in self._t0s]"}]},
+]
